@@ -2,21 +2,13 @@
 package main
 
 import (
-	"os"
-	"runtime/pprof"
 	"verif/checks/c09/fronthttp"
 	"verif/internal/ev"
 )
 
 func main() {
-	if pf := os.Getenv("C09_PROF"); pf != "" {
-		f, _ := os.Create(pf)
-		pprof.StartCPUProfile(f)
-		defer pprof.StopCPUProfile()
-	}
 	run := ev.Start("C09A", "exploration")
 	run.SetRule("development run of the http front of C09 only")
 	fronthttp.Run(run)
-	pprof.StopCPUProfile()
 	run.Finish()
 }
